@@ -82,9 +82,13 @@ def do_op(e, prog, b, op, i, g):
     else:
         raise Unsupported(op)
     if r.variant == 'Err':
-        # "below its size limit" is read conservatively: the complete encoding must still fit under the
-        # writer's limit (16 + 65535 bytes); a multi-part value that crosses it may legitimately fail part-way
-        over = z3.Or(Z(over) if not isinstance(over, bool) else z3.BoolVal(over), Z(before) + Z(n) > 65535)
+        # "below its size limit" is read conservatively: the writer must still be below the limit (16 + 65535
+        # bytes) after the fixed-size part of the encoding (3 bytes of a TLV, the whole of an integer / Type,
+        # the first item of a batch); a value that crosses the limit may legitimately fail part-way
+        fixed = {'u8': 1, 'u16': 2, 'type': 1, 'slice': 0, 'tlv': 3}.get(op)
+        if op == 'batch':
+            fixed = N
+        over = z3.Or(Z(over) if not isinstance(over, bool) else z3.BoolVal(over), Z(before) + Z(fixed) > 65535)
         return None, ('write_err', i, op, over, before)
     for x in enc:
         if isinstance(x, (Str, ArrSlice)):
